@@ -62,6 +62,7 @@ type c15Env struct {
 	conf      [][]types.SignData
 	tx        *types.Transaction
 	nodeID    p2p.NodeID
+	signedSibling bool // the attack contained a block at a probe height signed by that block's rightful miner
 	conns     []*simConn
 	log       []string
 	sentTotal int64
@@ -487,6 +488,7 @@ func (e *c15Env) absurdBlock() *types.Block {
 			if sig, err := crypto.Sign(hash[:], d.Node.Key); err == nil {
 				h.SignData = sig
 				c.Fault("deputy-signed-block-with-" + what)
+				e.signedSibling = true
 			}
 		}
 		return b
@@ -548,6 +550,9 @@ func (e *c15Env) absurdBlock() *types.Block {
 			if sig, err := crypto.Sign(hash[:], d.Node.Key); err == nil {
 				h.SignData = sig
 				c.Fault("absurd-block-signed-by-its-deputy")
+				if baseIdx >= 3 {
+					e.signedSibling = true
+				}
 			}
 		}
 	}
@@ -1294,8 +1299,23 @@ func (e *c15Env) probe() {
 			// (a goroutine that deadlocked on a per-connection lock does not hurt other peers at once, but it is
 			// pinned for ever together with its connection, buffers and peer entry: resources out of proportion)
 			c.W.Sleep(5 * time.Minute)
-			if lw := c.W.LockWaiters(); len(lw) > 0 {
-				c.Fail("C15/stuck/lock-never-released", "five simulated minutes after the attack ended %d node task(s) still wait for a lock that nobody will ever release (deadlock): %v\n%s", len(lw), lw, e.trace())
+			lw := c.W.LockWaiters()
+			// a long queue behind a lock that is handed on every few seconds (writers to a remote that does not read,
+			// each waiting for its write deadline) is slow, not dead: as long as the set of waiters changes, wait on
+			for i := 0; i < 240 && len(lw) > 0; i++ {
+				c.W.Sleep(time.Minute)
+				now := c.W.LockWaiters()
+				if strings.Join(now, " ") == strings.Join(lw, " ") {
+					break // nobody got the lock for a whole simulated minute
+				}
+				lw = now
+				c.Probe("lock_queue_still_draining_after_5_minutes")
+			}
+			if len(lw) > 0 {
+				if len(lw) > 12 {
+					lw = append(lw[:12:12], fmt.Sprintf("... %d more", len(lw)-12))
+				}
+				c.Fail("C15/stuck/lock-never-released", "long after the attack ended node task(s) still wait for a lock and for a whole simulated minute none of them got it (deadlock): %v\n%s\nnode goroutines at that moment:\n%s", lw, e.trace(), repoStacks(20))
 			}
 			return
 		}
@@ -1313,6 +1333,11 @@ func (e *c15Env) probe() {
 		c.Fail("C15/liveness/protocol-handshake", "after the attack an honest peer completed the encryption handshake but never received the node's protocol handshake within 60 simulated seconds\n%s", e.trace())
 	case !gotBlock:
 		c.Fail("C15/liveness/request-unanswered", "after the attack an honest peer's GetBlocks(1,1) was not answered within 60 simulated seconds (node connection closed by node: %v)\n%s", cli.PeerGone(), e.trace())
+	case e.signedSibling:
+		// the rightful miner of a probe block is the attacker and has published its own, consistently signed sibling
+		// of that block: which of a double-signing deputy's blocks a node follows (or whether it follows any) is the
+		// consensus rules' business, the probe cannot demand the honest copy
+		c.Probe("probe_blocks_compete_with_a_sibling_signed_by_their_own_miner")
 	default:
 		c.Fail("C15/liveness/block-not-accepted", "after the attack the valid blocks 3 and 4 pushed by an honest peer were not on the node's chain after 60 simulated seconds (current height %d)\n%s", curH, e.trace())
 	}
